@@ -331,7 +331,7 @@ def shard(a):
         from hypothesis import find
         kws = [find(r['kw'], lambda k: True)]
     # numeric re-encodings (base 32, hexadecimal): values on the powers of the radix
-    for w in gen.class_sweep(src, nbase=1) + gen.symbol_sweep(src, nbase=1) + gen.power_boundary_pool(src):
+    for w in gen.class_sweep(src, nbase=1) + gen.symbol_sweep(src, nbase=1) + gen.power_boundary_pool(src) + gen.edge_pool(src) + gen.boundary_pool(src):
         for kw in kws:
             prop({'rel': name, 'x': w, 'kw': kw}, res)
     return res
